@@ -24,14 +24,14 @@ theorem step_ok_flush (scripts : List Script) (s : St) (hg : Good s) (b : Nat) :
       simp only [Option.isSome_none, Bool.false_eq_true, if_false]
       obtain ⟨o, f⟩ := compute_fin scripts hg hb hp
       have hout := out_of_fin f
-      refine specStep_none ?_ ?_ (ann_of_fin f) (ext_clearItems b (ext_of_fin f))
-        (good_clearItems b (good_of_fin f fin_runs_le) (by simp [hout]))
+      refine specStep_none ?_ ?_ (ann_of_fin f) (ext_clearUnlessKept _ b (ext_of_fin f))
+        (good_clearUnlessKept _ b (good_of_fin f fin_runs_le) (by simp [hout]))
       · have hr := f.2
-        simp only [opClause, hnb, hp, if_false, Option.isSome_none, Bool.false_eq_true, clearItems_bout, hout,
-          clearItems_runs, hr, ne_eq, not_true_eq_false, Option.isNone_some]
+        simp only [opClause, hnb, hp, if_false, Option.isSome_none, Bool.false_eq_true, clearUnlessKept_bout, hout,
+          clearUnlessKept_runs, hr, ne_eq, not_true_eq_false, Option.isNone_some]
         split <;> simp_all
       · intro ev hev
-        simp only [evClause_clearItems]
+        simp only [evClause_clearUnlessKept]
         exact evClause_of_fin hg f ev hev
 
 theorem step_ok_cancel (scripts : List Script) (s : St) (hg : Good s) (b : Nat) (x : Option Nat) :
@@ -134,20 +134,20 @@ theorem step_ok_itemValue (scripts : List Script) (s : St) (hg : Good s) (i : Na
       have hsome : ((compute scripts s it.batch).1.iout i).isSome := by
         obtain ⟨⟨a, fa⟩, _⟩ := f
         exact fa.all i (by have := hE.2.2.1; omega) hib'
-      refine specStep_none ?_ ?_ (ann_of_fin f) (ext_clearItems _ hE)
-        (good_clearItems _ (good_of_fin f fin_runs_le) (by simp [hout]))
+      refine specStep_none ?_ ?_ (ann_of_fin f) (ext_clearUnlessKept _ _ hE)
+        (good_clearUnlessKept _ _ (good_of_fin f fin_runs_le) (by simp [hout]))
       · cases hv : (compute scripts s it.batch).1.iout i with
         | none => rw [hv] at hsome; cases hsome
         | some v => simp [opClause, hni, hp, hv, hib', hout]
       · intro ev hev
-        simp only [evClause_clearItems]
+        simp only [evClause_clearUnlessKept]
         exact evClause_of_fin hg f ev hev
 
 /-- every operation from a good snapshot is accepted by the observer (and leads to a good snapshot) -/
 theorem step_ok (scripts : List Script) (s : St) (hg : Good s) (op : Op) :
     specStep s (observe scripts s op).2 = none := by
   cases op with
-  | add p sp => exact step_ok_add scripts s hg p sp
+  | add p sp lk => exact step_ok_add scripts s hg p sp lk
   | addTo b p => exact step_ok_addTo scripts s hg b p
   | flush b => exact step_ok_flush scripts s hg b
   | cancel b e => exact step_ok_cancel scripts s hg b e
@@ -176,8 +176,8 @@ theorem good_of_specStep {pre : St} {ob : Obs} (h : specStep pre ob = none) : Go
 theorem observe_post (scripts : List Script) (s : St) (op : Op) :
     (observe scripts s op).2.post = (observe scripts s op).1 := rfl
 
-theorem good_init (k : Kind) : Good (init k) := by
-  cases k <;> decide
+theorem good_init (k : Kind) (keep : Bool := false) : Good (init k keep) := by
+  cases k <;> cases keep <;> decide
 
 theorem watchRun_ok (scripts : List Script) (ops : List Op) :
     ∀ s, Good s → watchRun s (run scripts s ops) = none := by
